@@ -43,7 +43,11 @@ func ruleDT11(c *Ctx) {
 	}
 	sort.Slice(fns, func(i, j int) bool { return c.Name(fns[i]) < c.Name(fns[j]) })
 	nBad := 0
+	diag := c.diagnosticFns()
 	for _, g := range fns {
+		if diag[g] || diag[Outermost(g)] {
+			continue // talks to stderr only: what it reads of the clock or the environment reaches nothing replay builds
+		}
 		k := 0
 		eachInstr(g, func(r instrRef) {
 			switch x := r.In.(type) {
